@@ -3,16 +3,16 @@ EXTENDS Governance, Json
 (* exhaustive check of Governance.tla and generator of abstract governance histories *)
 VARIABLE hist
 CONSTANT MaxSteps
-A_Update == \E c \in Callers, ch \in SaneChanges : Update(c, ch) /\ hist' = Append(hist, [op |-> "update", caller |-> c, ch |-> ch])
-A_Stage == \E c \in Callers, ch \in SaneChanges : Stage(c, ch) /\ hist' = Append(hist, [op |-> "update", caller |-> c, ch |-> ch])
-A_Commit == \E c \in Callers : Commit(c) /\ hist' = Append(hist, [op |-> "commit", caller |-> c, ch |-> <<>>])
+A_Update == Len(hist) < MaxSteps /\ \E c \in Callers, ch \in SaneChanges : Update(c, ch) /\ hist' = Append(hist, [op |-> "update", caller |-> c, ch |-> ch])
+A_Stage == Len(hist) < MaxSteps /\ \E c \in Callers, ch \in SaneChanges : Stage(c, ch) /\ hist' = Append(hist, [op |-> "update", caller |-> c, ch |-> ch])
+A_Commit == Len(hist) < MaxSteps /\ \E c \in Callers : Commit(c) /\ hist' = Append(hist, [op |-> "commit", caller |-> c, ch |-> <<>>])
 MInit == Init /\ hist = <<>>
-MNext == Len(hist) < MaxSteps /\ (A_Update \/ A_Stage \/ A_Commit)
+MNext == A_Update \/ A_Stage \/ A_Commit
 MSpec == MInit /\ [][MNext]_<<vars, hist>>
 MView == <<vars, Len(hist)>>
 \* -simulate generator: one line per finished walk (the closing step has a single successor, so that the
 \* simulator, which evaluates invariants on all successors, prints the chosen walk only)
 G_Done == Len(hist) = MaxSteps /\ hist' = Append(hist, [op |-> "end", caller |-> Owner, ch |-> <<>>]) /\ UNCHANGED vars
-GSpec == MInit /\ [][MNext \/ G_Done]_<<vars, hist>>
+GSpec == MInit /\ [][A_Update \/ A_Stage \/ A_Commit \/ G_Done]_<<vars, hist>>
 GPrint == Len(hist) = MaxSteps + 1 => PrintT(<<"BEHAVIOUR", ToJson(SubSeq(hist, 1, MaxSteps))>>)
 =============================================================================
